@@ -228,5 +228,24 @@ theorem dirs_roundtrip (x V : NdArray K) (s : List Nat) (P D : Nat) (hx : x.shap
   rw [hPD.1, hPD.2, get_ofFn _ _ _ (show ValidIdx ((D+1) :: P :: s) ((d+1) :: p :: idx) from ⟨by omega, hp, h⟩)]
   simp
 
+/-! ## containers of polynomials (`as_utpm`, `ndarray2utpm`) -/
+
+/-- the shape of the converted container -/
+theorem containerToUtpm_shape (outer e : List Nat) (X : NdArray K) (n D P : Nat) (hX : X.shape = n :: D :: P :: e) :
+    (containerToUtpm outer X).shape = D :: P :: (outer ++ e) := by
+  unfold containerToUtpm
+  simp [hX, ofFn]
+
+/-- **every element is read back**: entry `o` of the converted container is element `ravel o` of the stack, coefficient by
+coefficient -/
+theorem containerToUtpm_get (outer e : List Nat) (X : NdArray K) (n D P : Nat) (hX : X.shape = n :: D :: P :: e)
+    (d p : Nat) (hd : d < D) (hp : p < P) (o ei : List Nat) (ho : ValidIdx outer o) (he : ValidIdx e ei) :
+    (containerToUtpm outer X).get (d :: p :: (o ++ ei)) = X.get (ravel outer o :: d :: p :: ei) := by
+  unfold containerToUtpm
+  simp only [hX, List.getD_cons_succ, List.getD_cons_zero, List.drop_succ_cons, List.drop_zero]
+  have hv : ValidIdx (D :: P :: (outer ++ e)) (d :: p :: (o ++ ei)) := ⟨hd, hp, validIdx_append outer o e ei ho he⟩
+  rw [get_ofFn _ _ _ hv]
+  have hlen := validIdx_length outer o ho
+  simp [← hlen]
 end
 end AV
